@@ -77,6 +77,8 @@ def generate(spec):
     for j in range(k):
         victim = j > 0 and rng.random() < 0.4 and not (batch and j == 1)
         to = {"seconds": rng.choice([2, 5, 30])} if victim else {"hours": 12}
+        if not victim and j > 0 and rng.random() < 0.1:
+            to = {"weeks": 600000}      # an instance that asks for a deadline millennia away (the server accepts it) is the others' business as little as any other
         insts.append({"role": "victim" if victim else "observer", "timeout": to})
         t = rng.randrange(0, 3 * 10**6)
         if j >= 2 and rng.random() < 0.5:
